@@ -12,7 +12,7 @@
 (* end one JSON line is emitted: text, line lengths, whether the lexemes   *)
 (* are all whole tokens (lexok) and whether Grammar!Accepts the sequence.  *)
 (***************************************************************************)
-EXTENDS Printer, Grammar, Json, IOUtils, SequencesExt
+EXTENDS Printer, Grammar, Lexer, Json, IOUtils, SequencesExt
 
 Trees == ndJsonDeserialize(IOEnv.TREES)
 CONSTANTS Depth, Seps, Rich
@@ -62,8 +62,13 @@ Spec == Init /\ [][Next]_vars
 Done == i > Len(toks)
 \* the line table of the printed text (a trailing newline is added for odd separators)
 Trail == (sep % 2) = 1
-Out == [id |-> Trees[ti].id, text |-> IF Trail THEN text \o "\n" ELSE text,
+\* the verdict comes from the characters (Lexer!Lex on the printed text), not from the token list the text was made
+\* of: joining lexemes can merge or split them (`1/` then `2` is the ratio `1/ 2`), and partial or garbage lexemes are
+\* decided like everything else.  lexok = the lexer rejects no character.
+Out == LET full == IF Trail THEN text \o "\n" ELSE text
+           lx == Lex(full) IN
+       [id |-> Trees[ti].id, text |-> full,
         lines |-> IF Trail THEN lens \o <<pos.ch, 0>> ELSE lens \o <<pos.ch>>,
-        lexok |-> lexok, accepts |-> lexok /\ Accepts(toks), ntoks |-> Len(toks)]
+        lexok |-> lx.errs = <<>>, accepts |-> lx.errs = <<>> /\ AcceptsKinds(KindsOf(lx.toks)), unspec |-> Unspecified(full), ntoks |-> Len(toks)]
 EmitInv == Done => PrintT("GEN " \o ToJson(Out))
 =============================================================================
